@@ -4,12 +4,13 @@ under several configurations (16 workers / 1 worker, two PYTHONHASHSEED values, 
 digest of everything observable (exit codes, stdout, stderr, complete event logs) must be identical.
 usage: tools/determinism.py [cases-per-property] [VERIF_SEED]   -> writes evidence/_determinism.json, exit 2 on divergence"""
 import json, os, subprocess, sys, time
+VERIF = os.path.dirname(os.path.dirname(os.path.abspath(__file__)))
 N = int(sys.argv[1]) if len(sys.argv) > 1 else 60
 SEED = int(sys.argv[2]) if len(sys.argv) > 2 else 1
 PROPS = ["C04", "C07", "C08", "C11", "C13", "C17", "C18", "C19", "C20"]
 WORKER = r'''
 import sys, json, hashlib, os, itertools
-sys.path.insert(0, "/verif/sim/driver")
+sys.path.insert(0, os.path.join(os.environ["SIMWORLD_VERIF"], "sim", "driver"))
 import core, main
 prop, n, seed, workers = sys.argv[1], int(sys.argv[2]), int(sys.argv[3]), int(sys.argv[4])
 core.WORKERS = workers
@@ -31,12 +32,12 @@ with ctx.Pool(workers) as pool:
 print(json.dumps(out))
 '''
 def run(prop, workers, hashseed):
-    env = dict(os.environ, PYTHONHASHSEED=str(hashseed))
+    env = dict(os.environ, PYTHONHASHSEED=str(hashseed), SIMWORLD_VERIF=VERIF)
     r = subprocess.run(["/usr/bin/python3", "-B", "-c", WORKER, prop, str(N), str(SEED), str(workers)], capture_output=True, text=True, env=env)
     if r.returncode != 0:
         print(r.stderr[-2000:]); sys.exit(2)
     return json.loads(r.stdout.strip().split("\n")[-1])
-sys.path.insert(0, "/verif/sim/driver")
+sys.path.insert(0, os.path.join(VERIF, "sim", "driver"))
 import core
 core.build_all(need_probe=True)
 report = {"cases_per_property": N, "verif_seed": SEED, "configurations": ["16 workers PYTHONHASHSEED=0", "16 workers PYTHONHASHSEED=0 (repeat)", "1 worker PYTHONHASHSEED=12345", "4 workers PYTHONHASHSEED=777"], "properties": {}, "divergences": []}
@@ -53,7 +54,7 @@ for prop in PROPS:
     report["properties"][prop] = {"cases": len(base), "executions": len(base) * len(runs), "divergent": div}
     print(prop, report["properties"][prop], flush=True)
 report["wall_s"] = round(time.time() - t0, 1)
-os.makedirs("/verif/evidence", exist_ok=True)
-json.dump(report, open("/verif/evidence/_determinism.json", "w"), indent=1)
+os.makedirs(os.path.join(VERIF, "evidence"), exist_ok=True)
+json.dump(report, open(os.path.join(VERIF, "evidence", "_determinism.json"), "w"), indent=1)
 core.cleanup_scratch()
 sys.exit(2 if report["divergences"] else 0)
